@@ -14,6 +14,8 @@ R09.5 (tables + CFG) defining origin: add_origin forwards the header id as FILE-
 R09.6 (effects) the header / origin / set writers keep no memo of encoded bytes.
 R09.7 (= C07 R07.3) what an indirectly formatted record refers to is an object of the same logical file (hence one of the
       sets written before the data): the write path checks membership for every reference, no-format objects included.
+R09.8 (shared, = C02 R02.1/2/4/5 + C10 R10.1-3) the transport below the records: segments partition each body in order with
+      correct bracketing and padding, the output buffer and the byte writer hand on exactly those bytes.
 """
 
 from __future__ import annotations
@@ -47,6 +49,8 @@ def run(chk):
     chk.guard(r09_5_origin, chk)
     chk.guard(r09_6_no_memo, chk)
     chk.guard(r09_7_referenced_objects_are_in_the_file, chk)
+    from ._layout import transport_integrity
+    chk.guard(transport_integrity, chk, "R09.8")
 
 
 def r09_7_referenced_objects_are_in_the_file(chk):
@@ -226,7 +230,8 @@ def r09_3_empty(chk):
     chk.obs[n0:] = keep
     # an empty body produces no record: the segmenter yields nothing for S = 0
     from ..segmodel import SegmentModel
-    m = SegmentModel(chk.ix, chk.cg)
+    from ..segmodel import shared_model
+    m = shared_model(chk.ix, chk.cg)
     if m.error is not None:
         raise m.error
     bad = [y for y in m.yields if y["exact"] and not infeasible_cached(list(y["cons"]) + [eq(m.S, 0)])]
